@@ -156,6 +156,7 @@ def c14(tier, seed):
     cmd = ["srv-record", "--out", tr, "--seed", seed, "--runs", 12 if thorough else 4, "--steps", 200]
     out.add_vh(run_vh(cmd), only={"C14"})
     _trace_check(out, "C14", "Trace_PPOPRF", "Trace_PPOPRF.cfg", tr, cmd, 12 if thorough else 4, "server history")
+    out.add_vh(run_vh(["srv-alltags", "--seed", seed], timeout=3000), only={"C14"})
     return out
 
 
@@ -225,6 +226,7 @@ def c01(tier, seed):
     _recover_family(out, "C01", ["Star_q_honest.cfg", "Star_t_honest.cfg" if thorough else "Star_t4_honest.cfg"], seed,
                     8 if thorough else 4)
     _star_big(out, "C01", seed, thorough)
+    out.add_vh(run_vh(["length-sweep", "--prop", "C01", "--seed", seed, "--max", 700 if thorough else 200], timeout=3000), only={"C01"})
     return out
 
 
@@ -257,6 +259,7 @@ def c16(tier, seed):
     _recover_family(out, "C16", ["Star_a_honest.cfg", "Star_a_faults.cfg"], seed, 6 if thorough else 4,
                     stride=1 if thorough else 2)
     out.add_vh(run_vh(["adss-sizes", "--seed", seed, "--tier", tier], timeout=3000), only={"C16"})
+    out.add_vh(run_vh(["length-sweep", "--prop", "C16", "--seed", seed, "--max", 700 if thorough else 200], timeout=3000), only={"C16"})
     return out
 
 
@@ -410,6 +413,7 @@ def c03(tier, seed):
     _expect_spec_violation(out, "MC_Secrecy", "Secrecy_legacy.cfg", "NoXorLeak with a constant cipher nonce")
     for k in range(4 if thorough else 1):
         out.add_vh(run_vh(["cipher-check", "--seed", seed + k, "--groups", 60 if thorough else 16], timeout=3000), only={"C03"})
+    out.add_vh(run_vh(["length-sweep", "--prop", "C03", "--seed", seed, "--max", 520 if thorough else 200], timeout=3000), only={"C03"})
     return out
 
 
@@ -436,6 +440,7 @@ def c04(tier, seed):
             raise ToolError("MC_Derive emitted too few triples")
         out.add_vh(run_vh(["derive-replay", "--lines", lp, "--seed", seed, "--vals", 10,
                            "--thrmaps", 5 if thorough else 4, "--clients", 16 if thorough else 3], timeout=3000), only={"C04"})
+    out.add_vh(run_vh(["length-sweep", "--prop", "C04", "--seed", seed, "--max", 1000 if thorough else 300], timeout=3000), only={"C04"})
     return out
 
 
